@@ -137,11 +137,11 @@ def run(check, repo: Repo) -> None:
         l, r = list_times(ret[0].left), list_times(ret[0].right)
         if l and r:
             env = {}
-            for nm in ("base_size", "remainder"):
-                dd = [x for x in definitions(sb, nm) if isinstance(x, ast.AST)]
-                if len(dd) == 1 and isinstance(dd[0], ast.BinOp) and isinstance(dd[0].op, (ast.FloorDiv, ast.Mod)):
-                    if unparse(dd[0].left) == "num_items" and unparse(dd[0].right) == "num_batches":
-                        env[nm] = Rat.sym("Q" if isinstance(dd[0].op, ast.FloorDiv) else "R")
+            for n_ in walk_no_nested_defs(sb):
+                # quotient / remainder of the same division, whatever the locals are called
+                if isinstance(n_, ast.Assign) and isinstance(n_.targets[0], ast.Name) and isinstance(n_.value, ast.BinOp) \
+                        and isinstance(n_.value.op, (ast.FloorDiv, ast.Mod)) and unparse(n_.value.left) == "num_items" and unparse(n_.value.right) == "num_batches":
+                    env[n_.targets[0].id] = Rat.sym("Q" if isinstance(n_.value.op, ast.FloorDiv) else "R")
             try:
                 total = from_ast(l[0], env) * from_ast(l[1], env) + from_ast(r[0], env) * from_ast(r[1], env)
                 want = Rat.sym("Q") * Rat.sym("num_batches") + Rat.sym("R")  # = num_items (div-mod axiom)
